@@ -28,7 +28,9 @@ const bigBase = 1<<53 + 1
 // keyNames: eight awkward names, then plain ones (the bulk scenarios of C14 fill
 // the store well beyond any small-size fast path).
 var keyNames = func() (k [NK]string) {
-	copy(k[:], []string{"", "a", "ключ", "b", "k4", "日本", "k 6", "\x00z"})
+	// ("a.x1" and "b.x2" look like paths into the nested sections that "a" and "b"
+	// may hold - n-codes are maps with the keys x0..x2 - and are keys like any other)
+	copy(k[:], []string{"", "a", "ключ", "b", "a.x1", "日本", "b.x2", "\x00z"})
 	for i := 8; i < NK; i++ {
 		k[i] = "item_" + strconv.Itoa(i)
 	}
